@@ -12,7 +12,7 @@ Section C20.
      is open, child spans (parse, command, commands composed from other commands, response) are started only inside
      a root and finished innermost-first, the root is finished only when no child is open, and nothing is open at
      the end.  For EVERY input byte string (valid requests, argument errors, unknown commands, unauthorized, QUIT,
-     protocol errors, end of stream anywhere), every configuration, TLS admission outcome and handler. *)
+     protocol errors, end of stream anywhere), every configuration, TLS entry outcome and handler. *)
   Theorem C20_spans_balanced : forall ss hs tls input,
     bal (trace hstate (serve hstate handle regexp_src fw_text ss hs tls input)) false 0 = true.
   Proof. exact (serve_balanced hstate handle regexp_src fw_text). Qed.
@@ -21,7 +21,7 @@ Section C20.
      command's own events (properly nested spans and handler calls only); response span with one write; root
      finish] — an optional closing iteration [root start; parse span; root finish], deregistration, close *)
   Theorem C20_iteration_structure : forall ss hs tls input,
-    admitted ss tls = true ->
+    let_in ss tls = true ->
     exists its closing,
       trace hstate (serve hstate handle regexp_src fw_text ss hs tls input) = [EvRegister] ++ loop_evs its closing ++ [EvDeregister; EvClose] /\
       its_good its /\ (closing = [] \/ closing = loop_closing) /\
